@@ -164,6 +164,36 @@ def scope(model, family: str, schema_id: str, size: int, **over) -> dict:
             "marksets": msets,
             "max_children": 3,
         }
+    elif family == "hp":
+        s = {
+            "types": ["doc", "heading", "paragraph", "text"],
+            "texts": ["a"],
+            "attrs": {"heading": [{"level": 1}]},
+            "max_children": 3,
+        }
+    elif family == "inlstrict":
+        s = {
+            "types": ["doc", "paragraph", "caption", "label", "text", "image"],
+            "texts": ["a", "bc"],
+            "marksets": _ms(model, [], [EM]),
+            "attrs": {"image": [{"src": "i.png"}]},
+            "max_children": 3,
+        }
+    elif family == "fmarks_c":  # F-marks documents with inline containers that have content
+        from ..ref import marks as rmk
+
+        cands = [[], [("A", {"id": 0})], [("B", None)], [("A", {"id": 0}), ("B", None)]]
+        msets = []
+        for names in cands:
+            ms = rmk.canon_set(model, [mk(model, n, a) for n, a in names])
+            if rmk.is_canonical(model, ms) and ms not in msets:
+                msets.append(ms)
+        s = {
+            "types": ["doc", "paragraph", "text", "chip", "span"],
+            "texts": ["a"],
+            "marksets": msets,
+            "max_children": 2,
+        }
     elif family == "fgen":
         s = {
             "types": ["doc", "A", "B", "T", "L", "R", "text", "br"],
@@ -195,6 +225,8 @@ def families_for(schema_id: str) -> list[str]:
         "iso": ["iso", "iso_list"],
         "table": ["table"],
         "grid": ["table"],
+        "hp": ["hp"],
+        "inlstrict": ["inlstrict"],
         "topmarks": ["topmarks"],
         "attrs": ["attrs"],
     }[schema_id]
